@@ -38,7 +38,7 @@ package server
 //@   requires unlocked: allunlocked("Havoc/cmd/server.Client", "Mutex")
 //@   modifies *
 //@   guard-call auth: "DispatchEvent|EventAppend|EventBroadcast|SendAllPackagesToNewClient" lastresult(ClientAuthenticate) == true
-//@   guard-store auth: "Client\.Authenticated" lastresult(ClientAuthenticate) == true
+//@   guard-store auth: "Client\.Authenticated$" lastresult(ClientAuthenticate) == true
 
 //@ func (t *Teamserver) EventBroadcast(ExceptClient string, pk packager.Package)
 //@   requires nonnil: t != nil
